@@ -10,6 +10,7 @@ from engine import pat
 from engine.util import own_nodes, calls_with_nodes, where, with_exprs
 
 RULES = {
+    "R-03.13": "adopted: the class that decodes an rdata is chosen (and memoised) per (class, type) - C02 R-02.3; the opcode written into the flags reads back as itself for all sixteen values - C18 R-18.8; questions compare by name, class and type - C07 R-07.11",
     "R-03.12": "equal records hash equally (C07 R-07.3 adopted): the renderer writes every member of the rdata set and the parser merges equal ones",
     "R-03.11": "only the RDATA names the reader may find compressed are written compressed: the set of record writers that hand the message's compression table to an embedded name (or name helper) is the reasoned table below - any other type writes its names uncompressed (RFC 3597 4; e.g. the NSEC next name is case-preserving while the table is keyed case-insensitively)",
     "R-03.10": "0 is a message id like any other: optional numbers of the renderer and message constructors (id, flags, sizes) are tested for presence by identity with None, never by truth value (DoH and DoQ send id 0; a renderer that re-rolls id 0 makes parse(render(m)) != m)",
@@ -243,6 +244,9 @@ def run(model, rep, tier):
     rep.floor("R-03.11", n_comp, 7)
     from rules.common import presence_by_identity
     presence_by_identity(model, rep, "R-03.10", ["dns.renderer", "dns.message"], {"id"}, "an optional number of the renderer/message API", "id 0, used by DoH/DoQ, is replaced by a random id", 2, "dns.renderer+dns.message")
+    rep.share(model, "C02", {"R-02.3"}, "R-03.13", "Message parsing decodes every record through dns.rdata.get_rdata_class(rdclass, rdtype): a class memoised under a wider key than it was looked up with decodes later records of the same type as opaque data, keeping raw compression pointers")
+    rep.share(model, "C18", {"R-18.8"}, "R-03.13", "the parsed message's class (query / update) and its opcode come from dns.opcode.from_flags(flags); the renderer writes dns.opcode.to_flags")
+    rep.share(model, "C07", {"R-07.11"}, "R-03.13", "the parser files records into RRsets found with find_rrset/match and the tests compare parsed and original messages section by section with RRset.__eq__")
     rep.meta["explanation"] = (
         "Layout agreement of the hand-written writer/reader pairs at the message layer (struct formats folded and compared field by field), statement-position rule for the section counts, "
         "provenance of the compression table argument at every to_wire call that receives the renderer's buffer, and who-may-write on the section index. "
